@@ -15,7 +15,12 @@ pub struct C13 {
     seed: u64,
     boot: Xstate,
     words: Vec<String>,
+    /// how many of the supplied arguments a word takes off the stack (learned from a battery of untagged runs)
+    arity: std::collections::BTreeMap<String, usize>,
 }
+
+/// words whose result may be one of their arguments itself (moved, with whatever tags it carries)
+const MOVERS: &[&str] = &["dup", "drop", "swap", "over", "rot", "nth", "get", "unbox"];
 
 const EXCLUDED: &[&str] = &[
     // the tag words themselves (checked against the attached-map model below)
@@ -43,8 +48,33 @@ impl C13 {
             .map(|(n, _)| n.to_string())
             .collect();
         let mut uniq = BTreeSet::new();
-        let words = words.into_iter().filter(|w| uniq.insert(w.clone())).collect();
-        C13 { seed: a.seed, boot, words }
+        let words: Vec<String> = words.into_iter().filter(|w| uniq.insert(w.clone())).collect();
+        let mut arity = std::collections::BTreeMap::new();
+        let mut rng = Rng::new(0xA71);
+        for w in &words {
+            let mut best = 0usize;
+            for _ in 0..260 {
+                let mut models: Vec<MV> = vec![];
+                for _ in 0..3 {
+                    let c = *rng.pick(CLASSES);
+                    models.push(gen_class(&mut rng, c));
+                }
+                modest_sizes(w, &mut models);
+                let args: Vec<Cell> = models.iter().map(|m| crate::mon::c12::to_cell(m, &mut None)).collect();
+                if let Ok(r) = run(&boot, &args, w) {
+                    if r.res == "ok" {
+                        // inputs are sentinel + 3 arguments; the untouched ones form a common prefix with the result stack
+                        let mut ins = vec!["\"sentinel\"".to_string()];
+                        ins.extend(args.iter().map(show));
+                        let outs: Vec<String> = r.stack.iter().map(show).collect();
+                        let common = ins.iter().zip(outs.iter()).take_while(|(a, b)| a == b).count();
+                        best = best.max(ins.len() - common);
+                    }
+                }
+            }
+            arity.insert(w.clone(), best.min(3));
+        }
+        C13 { seed: a.seed, boot, words, arity }
     }
 }
 
@@ -109,6 +139,17 @@ fn twin(v: &MV, rng: &mut Rng, top: bool, nested: bool, depth_seen: &mut usize, 
         *depth_seen = (*depth_seen).max(depth + 1);
     }
     (plain, tagged)
+}
+
+/// the top argument of int! / uint! is an allocation size: keep it modest (the crash property excludes immodest sizes too)
+fn modest_sizes(word: &str, models: &mut Vec<MV>) {
+    if word == "int!" || word == "uint!" {
+        if let MV::Int(v) = &models[2] {
+            if *v > 512 {
+                models[2] = MV::Int(*v % 130);
+            }
+        }
+    }
 }
 
 const CLASSES: &[&str] = &["nil", "flag", "int", "big-int", "real", "str", "bits", "bits-unaligned", "vec-int", "vec-mixed", "map", "num-str", "empty-vec"];
@@ -221,18 +262,24 @@ impl C13 {
 
     fn word_case(&mut self, idx: u64, obs: &mut Obs) {
         let mut rng = Rng::for_case("C13", self.seed, idx);
-        let word = self.words[(idx / 2) as usize % self.words.len()].clone();
+        let mut word = self.words[(idx / 2) as usize % self.words.len()].clone();
         // three arguments are always supplied; a word takes what it needs from the top
-        let classes: Vec<&str> = (0..3).map(|_| *rng.pick(CLASSES)).collect();
+        let mut classes: Vec<&str> = (0..3).map(|_| *rng.pick(CLASSES)).collect();
         let mut models: Vec<MV> = classes.iter().map(|c| gen_class(&mut rng, c)).collect();
-        if word == "int!" || word == "uint!" {
-            // the top argument is an allocation size: keep it modest (the crash property excludes immodest sizes too)
-            if let MV::Int(v) = &models[2] {
-                if *v > 512 {
-                    models[2] = MV::Int(*v % 130);
-                }
+        if idx % 6 == 5 {
+            // map words with keys of every type (composite keys included): one map, one key of the same type
+            word = rng.pick(&["get", "insert", "remove"]).to_string();
+            let rank = *rng.pick(&[1u8, 2, 3, 4, 5, 6, 7]);
+            let mut m = vec![];
+            for _ in 0..2 + rng.below(4) {
+                crate::mon::c12::map_insert(&mut m, crate::mon::c12::gen_key_of(&mut rng, rank), gen_scalar(&mut rng));
             }
+            let key = if rng.flip() && !m.is_empty() { m[rng.below(m.len())].0.clone() } else { crate::mon::c12::gen_key_of(&mut rng, rank) };
+            models = if word == "insert" { vec![MV::Map(m), gen_scalar(&mut rng), key] } else { vec![MV::Int(1), MV::Map(m), key] };
+            classes = vec!["keyed", "keyed", ["", "flag-key", "int-key", "real-key", "str-key", "bits-key", "vec-key", "map-key"][rank as usize]];
+            obs.count("keyed_map_cases");
         }
+        modest_sizes(&word, &mut models);
         let style = rng.below(4); // which positions get tags
         let mut plain = vec![];
         let mut tagged = vec![];
@@ -304,6 +351,24 @@ impl C13 {
         let mut own_tags = BTreeSet::new();
         for c in &a.stack {
             tagged_subcells(c, &mut own_tags);
+        }
+        // a value the word computed (any result at a position the word consumes) is fresh: it carries no tags of its own,
+        // unless the word is a pure mover / extractor or attaches those tags by contract
+        let untouched = {
+            // the word left the whole stack exactly as it was (e.g. >int of an int): nothing was computed
+            let mut ins = vec!["\"sentinel\"".to_string()];
+            ins.extend(tagged.iter().map(show));
+            ins == b.stack.iter().map(show).collect::<Vec<_>>()
+        };
+        // `collect` takes a value-dependent number of arguments: the positional rule does not apply to it
+        if a.res == "ok" && !untouched && word != "collect" {
+            let n = *self.arity.get(&word).unwrap_or(&0);
+            let keep = 4usize.saturating_sub(n); // sentinel + 3 arguments, the lowest `keep` are not touched
+            for (pos, c) in b.stack.iter().enumerate() {
+                if pos >= keep && c.tags().is_some() && !MOVERS.contains(&word.as_str()) && !own_tags.contains(&show(c)) {
+                    return self.fail(obs, idx, &word, "computed-result-carries-tags", case, format!("{} takes {} argument(s); its result {} carries tags", word, n, truncate(&show(c), 300)));
+                }
+            }
         }
         for o in &out_tagged {
             if !input_tagged.contains(o) && !own_tags.contains(o) {
